@@ -249,7 +249,11 @@ impl<'de, 'e> YamlDeserializer<'de, 'e> {
     fn deserialize_seq(self, visitor: Vis) -> (r: Result<VisVal, Error>) ensures r == vis_seq(visitor, old(self.ev).rest(), self.cfg) { unimplemented!() }
     #[verifier::external_body]
     fn deserialize_map(self, visitor: Vis) -> (r: Result<VisVal, Error>) ensures r == vis_map(visitor, old(self.ev).rest(), self.cfg) { unimplemented!() }
+    /// `deserialize_str` as a delegation target (its body up to the point where the text is lent is item deserialize_str#until_lent)
+    #[verifier::external_body]
+    fn deserialize_str(self, visitor: Vis) -> (r: Result<VisVal, Error>) ensures r == vis_as_str(visitor, old(self.ev).rest(), self.cfg) { unimplemented!() }
 }
+uninterp spec fn vis_as_str<'de>(v: Vis, rest: Seq<Ev<'de>>, cfg: Cfg) -> Result<VisVal, Error>;
 
 /// the documented inference for an UNTAGGED PLAIN scalar that is not null-like: bool, then integer, then float, then string
 spec fn sp_infer_plain(visitor: Vis, text: Seq<char>, tag: SfTag, cfg: Cfg) -> Result<VisVal, Error> {
